@@ -36,7 +36,7 @@ def index_history(h):
     return {u: i for i, u in enumerate(order)}, order
 
 
-def hist_to_coq(h):
+def hist_to_coq(h, finished=True):
     idx, order = index_history(h)
     inds = h['individuals']
     heap, ngs = [], []
@@ -53,8 +53,8 @@ def hist_to_coq(h):
         c_nat(g['num']), LABELS.get(g['label'], 'LOther'), c_list([c_nat(idx[u]) for u in g['members']], 'nat'))
         for g in h['generations']]
     snaps = [c_list([c_nat(idx[u]) for u in s], 'nat') for s in h['archive']]
-    return '{| o_heap := %s; o_ng := %s; o_gens := %s; o_snaps := %s |}' % (
-        c_list(heap, 'hind'), c_list(ngs, 'option nat'), c_list(gens, 'gen'), c_list(snaps, 'list nat'))
+    return '{| o_heap := %s; o_ng := %s; o_gens := %s; o_snaps := %s; o_finished := %s |}' % (
+        c_list(heap, 'hind'), c_list(ngs, 'option nat'), c_list(gens, 'gen'), c_list(snaps, 'list nat'), c_bool(finished))
 
 
 def summarise(rec):
@@ -67,7 +67,7 @@ def summarise(rec):
 
 def configs(ctx):
     rng = ctx.rng
-    n = ctx.budget(26, 400)
+    n = ctx.budget(24, 400)
     out = []
     kinds = list(optrun.OPTIMISERS)
     for i in range(n):
@@ -100,6 +100,12 @@ def configs(ctx):
     # objective values of large magnitude with small differences
     for j in range(ctx.budget(4, 24)):
         out.append(optrun.magnitude_config(rng))
+    # non-default decremental regularization with a rule that sub-graphs can violate
+    for j in range(ctx.budget(4, 20)):
+        out.append(optrun.regularization_config(rng))
+    # a generator that cannot satisfy the rule has to give up with its error, never hand out a rejected graph
+    for j in range(ctx.budget(2, 8)):
+        out.append(optrun.unsatisfiable_generator_config(rng))
     return out
 
 
@@ -122,7 +128,7 @@ def run(ctx):
         h = rec['history']
         if any(r.get('duplicate_object_for_uid') for r in h['individuals'].values()):
             ctx.violate('runs', summarise(rec), 'two Individual objects with one uid are reachable from the history')
-        cases.append(hist_to_coq(h))
+        cases.append(hist_to_coq(h, finished=(rec['outcome'] == 'ok')))
         meta.append(rec)
         evolved = sum(1 for g in h['generations'] if g['label'] == '')
         with_parents = sum(1 for r in h['individuals'].values() if r['parents'])
@@ -157,7 +163,7 @@ def replay(ctx, payload):
     if not cfg:
         return
     rec = optrun.run_config(cfg)
-    res = ctx.coq_cases('replay', REQ, FN, [hist_to_coq(rec['history'])], 2)
+    res = ctx.coq_cases('replay', REQ, FN, [hist_to_coq(rec['history'], finished=(rec['outcome'] == 'ok'))], 2)
     ctx.count('replay', key=json.dumps(cfg, sort_keys=True), nontrivial=True)
     if not res[0][1]:
         ctx.violate('replay', summarise(rec), 'exported history is not well-formed')
